@@ -7,6 +7,7 @@ package main
 //   ty     static Go type T of v (names below); value/fallback are typed tokens of that type
 //   value  nil | b:0|1 | i:<n> i8: i16: i32: i64: u: u8: u16: u32: u64: up: | f32:x<bits> f64:x<bits> | s:x<hex>
 //          | st:<k> | sl:nil sl:e sl:<k> | mp:nil mp:<k> | fn:nil fn:<k> | ch:nil ch:<k> | np:<ty> | p(<value>)
+//          | c64:<k> c128:<k> (complex) | ar:<k> ([2]int) | usp:nil usp:<k> (unsafe.Pointer)
 //          | just(<value>) | ja(<value>) | jg(<value>) | none          (nested Maybe values)
 // The Maybe is built once per case; the ops are MaybeDef methods (plus the additional exported methods of the
 // concrete type and the package function CloneTo) executed in the given order, each under recover.
@@ -23,11 +24,14 @@ import (
 	"strconv"
 	"strings"
 	"time"
+	"unsafe"
 
 	fpgo "github.com/TeaEntityLab/fpGo/v2"
 )
 
 type c01S struct{ K int }
+
+type c01Cell struct{ K int } // target of the non-nil unsafe.Pointer values
 
 type c01Ty struct {
 	name  string
@@ -141,6 +145,16 @@ func init() {
 	c01Reg[float64]("f64", func(t string) float64 { return math.Float64frombits(c01Bits(t)) })
 	c01Reg[string]("s", func(t string) string { b, _ := hex.DecodeString(t[3:]); return string(b) })
 	c01Reg[c01S]("st", func(t string) c01S { return c01S{int(c01Int(t))} })
+	c01Reg[complex64]("c64", func(t string) complex64 { return complex(float32(c01Int(t)), 1) })
+	c01Reg[complex128]("c128", func(t string) complex128 { return complex(float64(c01Int(t)), 1) })
+	c01Reg[[2]int]("ar", func(t string) [2]int { k := int(c01Int(t)); return [2]int{k, k + 1} })
+	c01Reg[unsafe.Pointer]("usp", func(t string) unsafe.Pointer {
+		if t == "usp:nil" {
+			return nil
+		}
+		c := &c01Cell{K: int(c01Int(t))}
+		return unsafe.Pointer(c)
+	})
 	c01Reg[[]int]("sl", func(t string) []int {
 		switch t {
 		case "sl:nil":
@@ -183,6 +197,7 @@ func init() {
 	c01RegPtr[string]("s")
 	c01RegPtr[float64]("f64")
 	c01RegPtr[c01S]("st")
+	c01RegPtr[[2]int]("ar")
 	c01RegPtr[[]int]("sl")
 	c01RegPtr[map[string]int]("mp")
 	c01RegPtr[*int]("p:i")
@@ -280,6 +295,17 @@ func c01Render(v interface{}) string {
 		return "s:x" + hex.EncodeToString([]byte(x))
 	case c01S:
 		return "st:" + strconv.Itoa(x.K)
+	case complex64:
+		return "c64:" + strconv.Itoa(int(real(x)))
+	case complex128:
+		return "c128:" + strconv.Itoa(int(real(x)))
+	case [2]int:
+		return "ar:" + strconv.Itoa(x[0])
+	case unsafe.Pointer:
+		if x == nil {
+			return "usp:nil"
+		}
+		return "usp:" + strconv.Itoa((*c01Cell)(x).K)
 	case []int:
 		if x == nil {
 			return "sl:nil"
@@ -374,10 +400,10 @@ func c01Exact(tok string, depth int) bool {
 		if depth > 0 {
 			return false
 		}
-		return strings.HasPrefix(in, "st:") || strings.HasPrefix(in, "sl:") || strings.HasPrefix(in, "mp:")
-	case strings.HasPrefix(tok, "f32:") || strings.HasPrefix(tok, "f64:"):
+		return strings.HasPrefix(in, "st:") || strings.HasPrefix(in, "sl:") || strings.HasPrefix(in, "mp:") || strings.HasPrefix(in, "ar:")
+	case strings.HasPrefix(tok, "f32:") || strings.HasPrefix(tok, "f64:") || strings.HasPrefix(tok, "c64:") || strings.HasPrefix(tok, "c128:"):
 		return false
-	case strings.HasPrefix(tok, "fn:") || strings.HasPrefix(tok, "ch:"):
+	case strings.HasPrefix(tok, "fn:") || strings.HasPrefix(tok, "ch:") || strings.HasPrefix(tok, "usp:"):
 		return strings.HasSuffix(tok, ":nil")
 	}
 	return true
@@ -773,6 +799,10 @@ func c01RandVals(ty string, rng *rand.Rand, n int) []string {
 		}
 	case "st":
 		add("st:0", "st:"+small())
+	case "c64", "c128", "ar":
+		add(ty+":0", ty+":"+small())
+	case "usp":
+		add("usp:nil", "usp:"+small())
 	case "sl":
 		add("sl:nil", "sl:e", "sl:"+small())
 	case "mp":
@@ -788,19 +818,19 @@ func c01RandVals(ty string, rng *rand.Rand, n int) []string {
 // c01Zoo: value tokens per static type
 func c01Zoo(rng *rand.Rand, n int) map[string][]string {
 	zoo := map[string][]string{}
-	base := []string{"b", "i", "i8", "i16", "i32", "i64", "u", "u8", "u16", "u32", "u64", "up", "f32", "f64", "s", "st", "sl", "mp", "fn", "ch"}
+	base := []string{"b", "i", "i8", "i16", "i32", "i64", "u", "u8", "u16", "u32", "u64", "up", "f32", "f64", "s", "st", "sl", "mp", "fn", "ch", "c64", "c128", "ar", "usp"}
 	for _, t := range base {
 		zoo[t] = c01RandVals(t, rng, n)
 	}
 	pick := func(t string) string { v := zoo[t]; return v[rng.Intn(len(v))] }
-	for _, e := range []string{"i", "b", "s", "f64", "st", "sl", "mp"} {
+	for _, e := range []string{"i", "b", "s", "f64", "st", "sl", "mp", "ar"} {
 		zoo["p:"+e] = []string{"np:" + e, "p(" + zoo[e][0] + ")", "p(" + pick(e) + ")", "p(" + pick(e) + ")"}
 	}
 	zoo["p:p:i"] = []string{"np:p:i", "p(np:i)", "p(p(" + pick("i") + "))"}
 	zoo["p:p:st"] = []string{"np:p:st", "p(np:st)", "p(p(" + pick("st") + "))"}
 	zoo["p:p:p:i"] = []string{"np:p:p:i", "p(np:p:i)", "p(p(np:i))", "p(p(p(" + pick("i") + ")))"}
 	// nested Maybe values, depth 1..3, over a mix of inner values (absent and present ones)
-	inner := []string{"nil", "np:i", "i:0", pick("i"), pick("s"), "p(" + pick("i") + ")", "p(np:i)", pick("st"), "sl:nil", "mp:nil", "fn:nil", "ch:nil", pick("f64"), "b:0"}
+	inner := []string{"nil", "np:i", "i:0", pick("i"), pick("s"), "p(" + pick("i") + ")", "p(np:i)", pick("st"), "sl:nil", "mp:nil", "fn:nil", "ch:nil", pick("f64"), "b:0", "usp:nil", pick("ar")}
 	var d1, d2, d3 []string
 	for _, in := range inner {
 		d1 = append(d1, "just("+in+")", "ja("+in+")")
